@@ -14,7 +14,7 @@ CHECKS = {
  "C01": ("exploration", "seeded history simulation vs map reference model (lock-step refinement, every key probed after every step)",
          "Get/Size/Keys/Values of all 8 key-value containers equal a reference map after every step of seeded multi-client histories (ascending, descending, zig-zag, churn, re-put, remove-absent, clear), int and string keys, natural/reversed/coarsened comparators, B-tree orders 3-12, owned map-iteration order. " + DEGENERATE, "4 C01"),
  "C02": ("exploration", "seeded history simulation vs sorted reference model (order, extremes, Floor/Ceiling over all probes after every step)",
-         "Strict ascending order of Keys/Values/iteration, Left/Right/Min/Max/LeftKey/RightKey and Floor/Ceiling for every probe (present, absent, between neighbours, beyond both ends) are compared with a sorted reference after every step. " + DEGENERATE, "4 C02"),
+         "Strict ascending order of Keys/Values/iteration, Left/Right/Min/Max/LeftKey/RightKey and Floor/Ceiling for every probe (present, absent, between neighbours, beyond both ends) are compared with a sorted reference after every step; node-level navigation (AVL Node.Next/Prev chains, GetNode, red-black IteratorAt) must agree with it. Comparators include natural, reversed, coarsened and four that are legal but not -1/0/1 (large, subtraction, MinInt/MaxInt, sign-aware float order with NaN and both zeros). " + DEGENERATE, "4 C02, 10.2"),
  "C03": ("exploration", "seeded history simulation vs slice reference model, the three lists against one sequence",
          "Values/Size/Get(-1..size)/IndexOf/Contains of the three lists equal an abstract sequence after every step of seeded histories with boundary-biased indices and variadic counts 0..9. " + DEGENERATE, "4 C03"),
  "C04": ("exploration", "seeded history simulation vs set reference model",
@@ -26,23 +26,23 @@ CHECKS = {
  "C07": ("exploration", "seeded history simulation with a counting comparator and structure walks of the exported tree fields",
          "Comparator calls of every Get/Put/Remove are compared with the statement's formula at the most favourable n; AVL/B-tree/red-black shape invariants are walked from exported fields (every step for n<=64, sampled above, always at the end) under sorted, reverse, zig-zag, sweep and churn clients up to n=1024 (quick) / 4096 (thorough). " + DEGENERATE, "4 C07"),
  "C08": ("exploration", "seeded simulation of interleaved iterator clients vs cursor reference model (-1..n)",
-         "All 18 iterator types: after a seeded history, 1-3 iterator clients each owning a fresh iterator are interleaved over an unmodified container; the return value of every Next/Prev/Begin/End/First/Last/NextTo/PrevTo and Index/Key/Value at every in-range position are compared with a cursor model over the container's own Values()/Keys(); moves are biased to reversals at both sentinels; empty and single-element states are frequent. " + DEGENERATE, "4 C08 and appendix A.1"),
+         "All 18 iterator types: after a seeded history, 1-3 iterator clients each owning a fresh iterator are interleaved over an unmodified container; the return value of every Next/Prev/Begin/End/First/Last/NextTo/PrevTo and Index/Key/Value at every in-range position are compared with a cursor model over the container's own Values()/Keys(); moves are biased to reversals at both sentinels; empty and single-element states are frequent; one run in six starts from a bulk-filled container reshaped by a burst of removals. " + DEGENERATE, "4 C08 and appendix A.1"),
  "C09": ("exploration", "seeded history simulation vs insertion-order reference model",
          "Keys/Values/iterator/Each/ToJSON member order of LinkedHashMap and LinkedHashSet equal the reference 'order of insertion since last absent' after every step. " + DEGENERATE, "4 C09"),
  "C10": ("exploration", "seeded history simulation vs bijection reference model with eviction",
          "Get/GetKey consistency in both directions over the whole key and value tables, no shared value, Size=len(Keys)=len(Values) and equality with the eviction model after every step, value tables small enough to force every collision kind, coarsened key and value comparators. " + DEGENERATE, "4 C10"),
  "C11": ("exploration", "deterministic simulation of the persistence boundary: checkpoint, crash-restart into a fresh container, forked drains (durability round trip)",
-         "All 21 kinds under seeded histories with checkpoint and crash-restart as generated operations: at every checkpoint ToJSON must be valid JSON of the right top-level kind and the same document (token sequence; multiset for hash kinds) as json.Marshal(container); at every restart the document is reloaded (FromJSON / UnmarshalJSON / json.Unmarshal) into a fresh container of the same configuration which must equal the model and the live container (size, content, order) and drain (Pop/Dequeue) like the live one; the run then continues on the restarted container. Ring capacities 1-9 incl. wrapped and partial states, B-tree orders, int and string keys, values textually equal to keys. Sampled.", "4 C11"),
+         "All 21 kinds under seeded histories with checkpoint and crash-restart as generated operations: at every checkpoint ToJSON must be valid JSON of the right top-level kind and the same document (token sequence; multiset for hash kinds) as json.Marshal(container); at every restart the document is reloaded (FromJSON / UnmarshalJSON / json.Unmarshal) into a fresh container of the same configuration which must equal the model and the live container (size, content, order) and drain (Pop/Dequeue) like the live one; the run then continues on the restarted container; drains are compared with full element identity; documents returned by ToJSON are held and must not change later; one run in six uses struct, map, slice, pointer and any values in the key-value containers. Ring capacities 1-9 incl. wrapped and partial states, B-tree orders to 256, int and string keys, values textually equal to keys. Sampled.", "4 C11"),
  "C12": ("fault_enumeration", "deterministic simulation with fault injection on the snapshot store (14 fault kinds on the bytes between ToJSON and FromJSON), thorough tier enumerates every truncation offset",
-         "Loads onto live containers with arbitrary prior content of bytes that are intact, stale (lost write), of the wrong document kind, torn, bit-flipped, structurally overwritten, span-dropped/duplicated/swapped, garbage-appended, zero-filled, wrongly typed at an element, duplicated, re-encoded (whitespace, \\u escapes) or partially-structured. Error => observable state (all observers + ToJSON) identical to before; success => content equals what a reference decoder (encoding/json into plain Go values + the kind's normalisation) says the bytes denote, success on invalid JSON is a violation; afterwards the run continues under the C01-C06/C09/C10/C15 oracles. The thorough tier additionally sweeps every truncation offset of a snapshot (fault enumeration); everything else is sampled.", "4 C12, 3.5"),
+         "Loads onto live containers with arbitrary prior content of bytes that are intact, stale (lost write), of the wrong document kind, torn, bit-flipped, structurally overwritten, span-dropped/duplicated/swapped, garbage-appended, zero-filled, wrongly typed at an element, duplicated, re-encoded (whitespace, \\u escapes) or partially-structured. Error => observable state (all observers + ToJSON) identical to before; success => content equals what a reference decoder (encoding/json into plain Go values + the kind's normalisation) says the bytes denote, success on invalid JSON is a violation; afterwards the run continues under the C01-C06/C09/C10/C15 oracles. The thorough tier additionally enumerates, for a snapshot, every truncation offset, every single-bit flip and every single-byte structural overwrite (fault enumeration); everything else is sampled, including loads onto containers of 1000-2200 elements.", "4 C12, 3.5"),
  "C13": ("exploration", "seeded history simulation of two sets vs set-algebra reference model, independence probes by mutation",
-         "Pairs of sets of the same kind built by seeded histories (free, disjoint, nested, equal, one empty, either larger, same object as both operands); members of Intersection/Union/Difference are compared with the model, operands must be observably unchanged, then result, a and b are mutated in turn and the others must not move; TreeSet results must stay ascending under the operands' comparator after further Adds. " + DEGENERATE, "4 C13"),
+         "Pairs of sets of the same kind built by seeded histories (free, disjoint, nested, equal, one empty, either larger, same object as both operands); members of Intersection/Union/Difference are compared with the model, operands must be observably unchanged, then result, a and b are mutated in turn and the others must not move; TreeSet results must stay ascending under the operands' comparator after further Adds, and results are used as operands of further algebra (chaining). " + DEGENERATE, "4 C13"),
  "C14": ("exploration", "seeded history simulation; callback families; results wrapped as subjects and judged by the model oracles",
-         "Each call log equals the iterator sequence; Any/All/Find equal exists/for-all/first-match; Select/Map results are compared with 'insert in iteration order' on a reference model of the same kind and then mutated under the C01-C04/C09/C10 oracles (same discipline and comparator); receiver must be observably unchanged and independent of the result in both directions. " + DEGENERATE, "4 C14"),
+         "Each call log equals the iterator sequence; Any/All/Find equal exists/for-all/first-match; Select/Map results are compared with 'insert in iteration order' on a reference model of the same kind and then mutated under the C01-C04/C09/C10 oracles (same discipline and comparator); receiver must be observably unchanged and independent of the result in both directions; Select/Map results are also compared element by element with the library's own repeated insertion into a fresh container; a quarter of the callbacks are re-entrant (they read the receiver mid-enumeration); one run in 1500 enumerates a tree of 200 000-262 144 sorted keys. " + DEGENERATE, "4 C14"),
  "C15": ("exploration", "seeded history simulation; lock-step differential of a cleared container against a fresh instance",
          "Empty/Size/len(Values)/len(Keys)/String-name agreement after every step on all 21 containers; Clear at a seeded point, then the same continuation is applied to the cleared container and to a freshly constructed one and all observers including ToJSON must agree after every step. " + DEGENERATE, "4 C15"),
  "C16": ("exploration", "deterministic simulation with fault injection: the interfering caller (scribble on returned and passed slices)",
-         "The injected fault is a caller that keeps every slice it received from Values()/Keys() and every slice it passed to constructors and Add/Append/Prepend/Insert/Push/Remove, and at seeded moments overwrites them and appends within spare capacity; the container must stay equal to its model, earlier snapshots must not move under later mutations, GetSortedValues/GetSortedValuesFunc must return the sorted content and leave the container (including a heap's raw layout) unchanged. Sampled histories, all 21 kinds.", "4 C16"),
+         "The injected fault is a caller that keeps every slice it received from Values()/Keys() and every slice it passed to constructors and Add/Append/Prepend/Insert/Push/Remove, and at seeded moments overwrites them and appends within spare capacity; the container must stay equal to its model, earlier snapshots must not move under later mutations, GetSortedValues/GetSortedValuesFunc must return the sorted content and leave the container (including a heap's raw layout) unchanged; GetSortedValues is also probed over float32, named float, int8, uint16 and named string elements. Sampled histories, all 21 kinds.", "4 C16"),
  "C17": ("exploration", "deterministic simulation of a hostile caller: every exported operation with unconstrained arguments and faulted bytes; monitors for panic, termination in simulated steps, and fd 1/2 growth",
          "Every exported operation of all 21 containers and 18 iterators (accessors only after a successful move) with arguments from {MinInt, -2^31, -1, 0, size+-1, 2^31, MaxInt}, absent keys, empty and long variadics, empty containers, FromJSON of faulted and random bytes. A panic raised inside the library is a violation; an operation passing more than 5e7 yield sites is declared non-terminating (deterministic, replayable); file descriptors 1 and 2 are redirected to worker-owned files whose size is checked after every operation; Go fatal errors are attributed via a start marker and confirmed in a fresh process. Sizes bounded at 256. Sampled.", "4 C17"),
  "C18": ("exploration", "deterministic simulation: seeded scheduler over go/ast-inserted yield sites, one reader task at a time, Go race detector with the scheduler's handoffs hidden (RaceDisable), sequential reference results, fingerprint-triggered amplification",
